@@ -383,7 +383,7 @@ def _job(args):
                     promoted = False
                     pid_ = modname.rsplit(".", 1)[-1]
                     covered = any(k.get("status", "open") == "open" and k["property"] == pid_ and k["harness"] == hname
-                                  and all(params.get(a) == b for a, b in k.get("params", {}).items())
+                                  and all(_pmatch(params.get(a), b) for a, b in k.get("params", {}).items())
                                   for k in load_known())
                     for lb in ([] if covered else bad[:4]):
                         if not isinstance(lb, str) or lb.startswith("raised ") or h.replay is None:
@@ -427,6 +427,13 @@ def load_known():
         return json.load(f).get("findings", [])
 
 
+def _pmatch(value, want):
+    """a known finding names a parameter value or, as {"any_of": [...]}, several spellings of the same input"""
+    if isinstance(want, dict) and "any_of" in want:
+        return value in want["any_of"]
+    return value == want
+
+
 def match_known(known, pid, hname, label, params, inputs=None):
     for k in known:
         if k.get("status", "open") != "open":
@@ -436,7 +443,7 @@ def match_known(known, pid, hname, label, params, inputs=None):
         if k.get("label") and k["label"] != label:
             continue
         want = k.get("params", {})
-        if all(params.get(a) == b for a, b in want.items()):
+        if all(_pmatch(params.get(a), b) for a, b in want.items()):
             return k
     return None
 
@@ -527,7 +534,7 @@ def run_property(pid, modname, tier, seed, level_note, assumptions, bounds, only
             # a real-code violation that belongs to an open known finding of this harness is that finding, not an
             # encoding disagreement
             if any(k.get("status", "open") == "open" and k["property"] == pid and k["harness"] == r["harness"]
-                   and all(r["params"].get(a) == b for a, b in k.get("params", {}).items()) for k in known):
+                   and all(_pmatch(r["params"].get(a), b) for a, b in k.get("params", {}).items()) for k in known):
                 continue
             mismatches.append(dict(harness=r["harness"], params=r["params"], **mm))
         if r.get("validation_error"):
